@@ -10,16 +10,30 @@ Definition params : shell_params :=
    [fin]: the interpreter reached the end of the script with status 0;
    [clean]: nothing was written, no file appeared, no external command or file open was attempted, no baseline
             variable disappeared, no unexported variable was set;
-   [vars]: exported variables that differ from the interpreter's baseline or carry a name of the case, by name *)
+   [vars]: exported variables that differ from the interpreter's baseline or carry a name of the case, by name.
+   [ShSkip]: the interpreter gave no verdict (NUL byte, a script its parser cannot read, time-out on a loaded
+   machine): never counted as a pass — see [judged]. *)
 Inductive shobs := ShSkip | ShObs (fin clean : bool) (vars : list (string * string)).
 
 (* /bin/sh (dash), bash, mvdan.cc/sh *)
 Record sh3 := { o_dash : shobs; o_bash : shobs; o_mvdan : shobs }.
 
+(* the eight renderings of one environment *)
+Record outs := {
+  r_open_shell : string;      (* esc open --format shell *)
+  r_red_shell : string;       (* esc env get --value shell                       (secrets hidden) *)
+  r_red_shell_alt : string;   (* the same for the environment with other secret values *)
+  r_show_shell : string;      (* esc env get --value shell --show-secrets *)
+  r_open_dotenv : string;     (* esc env open --format dotenv *)
+  r_red_dotenv : string;      (* esc env get --value dotenv *)
+  r_red_dotenv_alt : string;
+  r_show_dotenv : string      (* esc env get --value dotenv --show-secrets *)
+}.
+
+(* [via_cli]: the renderings are the stdout of the real commands (cli.New + cobra, fake backend); otherwise they come
+   from renderValue called directly with the flags the commands are supposed to pass.  Same predicates for both. *)
 Inductive case :=
-| CRender (prefix : string) (vars files : list entry)
-          (open_shell red_shell red_shell_alt show_shell open_dotenv red_dotenv red_dotenv_alt : string)
-          (open_sh red_sh : sh3)
+| CRender (via_cli : bool) (prefix : string) (vars files : list entry) (o : outs) (open_sh red_sh : sh3)
 | CSh (script : string) (obs : sh3).
 
 (* ---- helpers ---- *)
@@ -53,17 +67,41 @@ Fixpoint dec_fuel (fuel : nat) (n : N) (acc : string) : string :=
 (* the harness's in-memory file system names the i-th temporary file <prefix>esc-<i> *)
 Definition path_of (prefix : string) (i : nat) : string := prefix +++ "esc-" +++ dec_fuel 20 (N.of_nat i) "".
 
-(* ---- validation of the shell semantics: whenever [sh_eval] answers [Exports l], the interpreter must have done
-        exactly that ---- *)
-Definition obs_is (l : list (string * string)) (o : shobs) : bool :=
+(* ---- validation of the shell semantics: whenever [sh_eval_in <the interpreter's special names>] answers
+        [Exports l], that interpreter must have done exactly that ---- *)
+Definition obs_is (fe : list (string * string)) (o : shobs) : bool :=
   match o with
   | ShSkip => true
-  | ShObs fin clean vars => fin && clean && pairs_eqb vars (final_env l)
+  | ShObs fin clean vars => fin && clean && pairs_eqb vars fe
   end.
+
+(* Verdict of one interpreter on one question: no verdict / as demanded / deviating.  dash and bash are the
+   reference interpreters.  mvdan.cc/sh is a third voice with known parser quirks (it drops backslash-CR-LF, keeps the
+   backslash of unquoted escapes, ...): when BOTH reference interpreters were asked, answered and agree with what is
+   demanded, a deviation of mvdan.cc/sh alone is an interpreter quirk, not a failure (counted by the harness:
+   distribution.interpreter_quirks); whenever one of the reference interpreters has no verdict, mvdan.cc/sh counts. *)
+Inductive tri := TNone | TOk | TBad.
+
+Definition deviates (d b m : tri) : bool :=
+  match d, b, m with
+  | TBad, _, _ => true
+  | _, TBad, _ => true
+  | TOk, TOk, TBad => false
+  | _, _, TBad => true
+  | _, _, _ => false
+  end.
+
+Definition tri_is (special : bool) (fe : list (string * string)) (o : shobs) : tri :=
+  if special then TNone
+  else match o with ShSkip => TNone | _ => if obs_is fe o then TOk else TBad end.
 
 Definition sh_consistent (script : string) (o : sh3) : bool :=
   match sh_eval script with
-  | Exports l => obs_is l (o_dash o) && obs_is l (o_bash o) && obs_is l (o_mvdan o)
+  | Exports l =>
+      let fe := final_env l in
+      negb (deviates (tri_is (exports_special dash_special l) fe (o_dash o))
+                     (tri_is (exports_special bash_special l) fe (o_bash o))
+                     (tri_is (exports_special mvdan_special l) fe (o_mvdan o)))
   | OtherEffect => true
   end.
 
@@ -73,47 +111,35 @@ Definition opt_neq (impl : string) (model : option string) : bool :=
 
 Definition mismatch (c : case) : bool :=
   match c with
-  | CRender prefix vars files os rs rsa ss od rd rda osh rsh =>
+  | CRender _ prefix vars files o osh rsh =>
       let po := path_of prefix in
-      negb (String.eqb os (shell_script params false false po vars files))
-      || negb (String.eqb rs (shell_script params true true po vars files))
-      || negb (String.eqb rsa (shell_script params true true po vars files))
-      || negb (String.eqb ss (shell_script params false true po vars files))
-      || opt_neq od (dotenv_text params false false po vars files)
-      || opt_neq rd (dotenv_text params true true po vars files)
-      || opt_neq rda (dotenv_text params true true po vars files)
-      || negb (sh_consistent os osh) || negb (sh_consistent rs rsh)
+      let hidden := shell_script params true true po vars files in
+      let hidden_d := dotenv_text params true true po vars files in
+      negb (String.eqb (r_open_shell o) (shell_script params false false po vars files))
+      || negb (String.eqb (r_red_shell o) hidden)
+      || negb (String.eqb (r_red_shell_alt o) hidden)
+      || negb (String.eqb (r_show_shell o) (shell_script params false true po vars files))
+      || opt_neq (r_open_dotenv o) (dotenv_text params false false po vars files)
+      || opt_neq (r_red_dotenv o) hidden_d
+      || opt_neq (r_red_dotenv_alt o) hidden_d
+      || opt_neq (r_show_dotenv o) (dotenv_text params false true po vars files)
+      || negb (sh_consistent (r_open_shell o) osh) || negb (sh_consistent (r_red_shell o) rsh)
   | CSh script o => negb (sh_consistent script o)
   end.
 
 (* ---- the property, evaluated on what the implementation's output did in real interpreters ---- *)
 
-(* variables that dash or bash themselves treat specially (read-only, or assignments with side effects / magic values);
-   exporting them is outside the property *)
-Definition shell_magic_names : list string :=
-  ["OPTIND"; "LINENO"; "PPID"; "UID"; "EUID"; "GROUPS"; "BASHOPTS"; "SHELLOPTS"; "BASHPID"; "BASH_VERSINFO";
-   "RANDOM"; "SECONDS"; "SRANDOM"; "EPOCHSECONDS"; "EPOCHREALTIME"; "BASH_ARGV0"; "BASH_COMPAT"; "DIRSTACK"; "FUNCNAME";
-   "HISTCMD"; "BASH_SUBSHELL"; "BASH_COMMAND"; "COMP_WORDBREAKS"; "POSIXLY_CORRECT"; "TMOUT"; "PWD"; "OLDPWD"; "SHLVL";
-   "_"; "IFS"; "PATH"; "ENV"; "BASH_ENV"; "PS4"; "BASH_XTRACEFD"; "LANG"; "LC_ALL"; "LC_CTYPE"; "LC_COLLATE";
-   "LC_MESSAGES"; "LC_NUMERIC"; "TZ"; "MAIL"; "MAILPATH"; "MAILCHECK"; "HISTFILE"; "HISTSIZE"; "HISTFILESIZE"; "TERM";
-   "CDPATH"; "GLOBIGNORE"; "BASH_LOADABLES_PATH"; "EXECIGNORE"; "FIGNORE"; "OPTERR"; "OPTARG"].
-
-Definition name_in_scope (k : string) : bool :=
-  valid_name k && negb (existsb (String.eqb k) shell_magic_names).
-
-Fixpoint distinct (l : list string) : bool :=
-  match l with [] => true | k :: r => negb (existsb (String.eqb k) r) && distinct r end.
-
 (* the scalar entries with their intended values *)
 Definition scalar_list (es : list entry) : list (string * (string * bool)) := scalars params es.
 
-(* the case is inside the property's quantifier: valid (non-magic) distinct names, no NUL byte anywhere *)
-Definition in_scope (prefix : string) (vars files : list entry) : bool :=
+(* the case is inside the property's quantifier FOR ONE INTERPRETER (special names [sp]): valid names that are
+   ordinary variables in that interpreter, no NUL byte in a value or path.  Key collisions are NOT excluded. *)
+Definition in_scope (sp : list string) (prefix : string) (vars files : list entry) : bool :=
   let vs := scalar_list vars in
   let fs := scalar_list files in
-  forallb (fun kv => name_in_scope (fst kv) && no_nul (fst (snd kv))) vs
-  && forallb (fun kv => name_in_scope (fst kv)) fs
-  && distinct (map fst vs ++ map fst fs) && no_nul prefix.
+  forallb (fun kv => valid_name (fst kv) && negb (mem_str (fst kv) sp) && no_nul (fst (snd kv))) vs
+  && forallb (fun kv => valid_name (fst kv) && negb (mem_str (fst kv) sp)) fs
+  && no_nul prefix.
 
 Definition lookup_obs (k : string) (vars : list (string * string)) : option string :=
   match filter (fun kv => String.eqb k (fst kv)) vars with [kv] => Some (snd kv) | _ => None end.
@@ -123,53 +149,98 @@ Definition opt_str_eqb (a : option string) (b : string) : bool :=
 
 (* one interpreter did what the property demands: finished, nothing else happened, every scalar variable has
    exactly its value ([redact]: the placeholder for secrets), every file variable one of the admissible paths,
-   no other variable was touched *)
-Definition obs_ok (redact pretend : bool) (prefix : string) (vars files : list entry) (o : shobs) : bool :=
+   no other variable was touched.  Names in [excl] are not looked at (used only to delimit the known finding). *)
+Definition obs_ok (excl : list string) (redact pretend : bool) (prefix : string) (vars files : list entry) (o : shobs)
+  : bool :=
   match o with
   | ShSkip => true
   | ShObs fin clean ovars =>
       let vs := scalar_list vars in
       let fs := scalar_list files in
+      let names := map fst vs ++ map fst fs in
       let paths := if pretend then [unknown_path_placeholder]
                    else map (path_of prefix) (seq 0 (length fs)) in
       fin && clean
-      && forallb (fun kv => opt_str_eqb (lookup_obs (fst kv) ovars)
-                              (if snd (snd kv) && redact then secret_placeholder else fst (snd kv))) vs
-      && forallb (fun kv => match lookup_obs (fst kv) ovars with
-                            | Some v => existsb (String.eqb v) paths
-                            | None => false
-                            end) fs
-      && forallb (fun kv => existsb (String.eqb (fst kv)) (map fst vs ++ map fst fs)) ovars
+      && forallb (fun kv => mem_str (fst kv) excl
+                            || opt_str_eqb (lookup_obs (fst kv) ovars)
+                                 (if snd (snd kv) && redact then secret_placeholder else fst (snd kv))) vs
+      && forallb (fun kv => mem_str (fst kv) excl
+                            || match lookup_obs (fst kv) ovars with
+                               | Some v => existsb (String.eqb v) paths
+                               | None => false
+                               end) fs
+      && forallb (fun kv => mem_str (fst kv) names) ovars
   end.
 
-Definition obs3_ok (redact pretend : bool) (prefix : string) (vars files : list entry) (o : sh3) : bool :=
-  obs_ok redact pretend prefix vars files (o_dash o) && obs_ok redact pretend prefix vars files (o_bash o)
-  && obs_ok redact pretend prefix vars files (o_mvdan o).
+Definition observed (o : shobs) : bool := match o with ShSkip => false | ShObs _ _ _ => true end.
 
-Definition spec_fail (c : case) : bool :=
+Definition interp_tri (excl sp : list string) (prefix : string) (vars files : list entry) (osh rsh : shobs) : tri :=
+  if in_scope sp prefix vars files
+  then if negb (obs_ok excl false false prefix vars files osh) || negb (obs_ok excl true true prefix vars files rsh)
+       then TBad
+       else if observed osh && observed rsh then TOk else TNone
+  else TNone.
+
+(* ---- redaction: with secrets hidden a secret value appears nowhere ----
+   Checked as INDEPENDENCE: the hidden renderings of the environment and of the same environment with every secret value
+   replaced by another one (the generator guarantees: a different text of a different length that shares no 6-byte
+   substring with it) are byte-identical - so nothing that depends on a secret value, be it the value, a part, its quoted
+   form or its length, is in them.  (A direct substring search for the secret was tried and dropped: the syntax around a
+   public value can spell a short secret by coincidence - an equals sign, a quote and the public value - and a check
+   must not alarm on correct code.) *)
+Definition redaction_fail (vars files : list entry) (o : outs) : bool :=
+  negb (String.eqb (r_red_shell o) (r_red_shell_alt o)) || negb (String.eqb (r_red_dotenv o) (r_red_dotenv_alt o)).
+
+Definition spec_fail_with (excl : list string) (c : case) : bool :=
   match c with
-  | CRender prefix vars files os rs rsa ss od rd rda osh rsh =>
-      (* hidden secrets: the output must be the same whatever the secret values are *)
-      negb (String.eqb rs rsa) || negb (String.eqb rd rda)
-      || (in_scope prefix vars files
-          && (negb (obs3_ok false false prefix vars files osh) || negb (obs3_ok true true prefix vars files rsh)))
+  | CRender _ prefix vars files o osh rsh =>
+      redaction_fail vars files o
+      || deviates (interp_tri excl dash_special prefix vars files (o_dash osh) (o_dash rsh))
+                  (interp_tri excl bash_special prefix vars files (o_bash osh) (o_bash rsh))
+                  (interp_tri excl mvdan_special prefix vars files (o_mvdan osh) (o_mvdan rsh))
   | CSh _ _ => false
   end.
 
-(* no recorded known finding for C17 (the quoting defect is repaired) *)
-Definition known (c : case) : bool := false.
+Definition spec_fail (c : case) : bool := spec_fail_with [] c.
+
+(* known finding C17-file-shadows-variable (class Model.Shell.kf_file_shadows): a key that is a scalar entry of both
+   environmentVariables and files is exported twice and the file's path wins.  A failure counts as THIS finding only
+   if (DESIGN 6, rule 2) the model predicts exactly what the implementation printed, and nothing is wrong with any
+   other name or with the redaction *)
+Definition collisions (vars files : list entry) : list string :=
+  filter (shadowed params files) (map fst (scalar_list vars)).
+
+Definition known (c : case) : bool :=
+  match c with
+  | CRender _ prefix vars files o osh rsh =>
+      if kf_file_shadows params vars files
+      then negb (mismatch c) && negb (spec_fail_with (collisions vars files) c)
+      else false
+  | CSh _ _ => false
+  end.
 
 Definition spec_fail_new (c : case) : bool := spec_fail c && negb (known c).
 Definition spec_fail_known (c : case) : bool := spec_fail c && known c.
 
 Definition benign_byte (n : N) : bool := (32 <=? n) && (n <=? 126) && negb (n =? 36) && negb (n =? 96).
 
+(* at least one interpreter for which the case is in scope evaluated both scripts: a case nobody judged is never
+   counted as a (non-trivial) pass *)
+Definition judged (prefix : string) (vars files : list entry) (osh rsh : sh3) : bool :=
+  (in_scope dash_special prefix vars files && observed (o_dash osh) && observed (o_dash rsh))
+  || (in_scope bash_special prefix vars files && observed (o_bash osh) && observed (o_bash rsh))
+  || (in_scope mvdan_special prefix vars files && observed (o_mvdan osh) && observed (o_mvdan rsh)).
+
 Definition nontrivial (c : case) : bool :=
   match c with
-  | CRender prefix vars files _ _ _ _ _ _ _ _ _ =>
-      in_scope prefix vars files
+  | CRender _ prefix vars files _ osh rsh =>
+      judged prefix vars files osh rsh
       && existsb (fun kv => negb (forallb benign_byte (bytes_of (fst (snd kv))))) (scalar_list vars)
-  | CSh script _ => match sh_eval script with Exports (_ :: _) => true | _ => false end
+  | CSh script o =>
+      match sh_eval script with
+      | Exports (_ :: _) => observed (o_dash o) || observed (o_bash o) || observed (o_mvdan o)
+      | _ => false
+      end
   end.
 
 (* ---- wire format ---- *)
@@ -219,32 +290,60 @@ Definition decode_sh3 (x : sexp) : option sh3 :=
   | _ => None
   end.
 
-Definition decode (x : sexp) : option case :=
-  match x with
-  | SList [Atom "render"; prefix; vars; files; SList [os; rs; rsa; ss; od; rd; rda]; osh; rsh] =>
-      match atom_str prefix, slist_of decode_entry vars, slist_of decode_entry files with
-      | Some prefix, Some vars, Some files =>
-          match map_opt atom_str [os; rs; rsa; ss; od; rd; rda], decode_sh3 osh, decode_sh3 rsh with
-          | Some [os; rs; rsa; ss; od; rd; rda], Some osh, Some rsh =>
-              Some (CRender prefix vars files os rs rsa ss od rd rda osh rsh)
-          | _, _, _ => None
-          end
+Definition decode_outs (x : sexp) : option outs :=
+  match slist_of atom_str x with
+  | Some [os; rs; rsa; ss; od; rd; rda; sd] =>
+      Some {| r_open_shell := os; r_red_shell := rs; r_red_shell_alt := rsa; r_show_shell := ss;
+              r_open_dotenv := od; r_red_dotenv := rd; r_red_dotenv_alt := rda; r_show_dotenv := sd |}
+  | _ => None
+  end.
+
+Definition decode_render (via_cli : bool) (prefix vars files o osh rsh : sexp) : option case :=
+  match atom_str prefix, slist_of decode_entry vars, slist_of decode_entry files with
+  | Some prefix, Some vars, Some files =>
+      match decode_outs o, decode_sh3 osh, decode_sh3 rsh with
+      | Some o, Some osh, Some rsh => Some (CRender via_cli prefix vars files o osh rsh)
       | _, _, _ => None
       end
+  | _, _, _ => None
+  end.
+
+Definition decode (x : sexp) : option case :=
+  match x with
+  | SList [Atom "render"; prefix; vars; files; o; osh; rsh] => decode_render false prefix vars files o osh rsh
+  | SList [Atom "cli"; prefix; vars; files; o; osh; rsh] => decode_render true prefix vars files o osh rsh
   | SList [Atom "sh"; script; o] =>
       match atom_str script, decode_sh3 o with Some s, Some o => Some (CSh s o) | _, _ => None end
   | _ => None
   end.
 
-Definition verdict (c : case) : N :=
-  verdict_bits (mismatch c) (spec_fail_new c) (spec_fail_known c) (nontrivial c).
+(* a wire line carries one case or `(both A B)`: the same environment through renderValue and through the commands *)
+Definition decode_line (x : sexp) : option (list case) :=
+  match x with
+  | SList (Atom "both" :: l) => map_opt decode l
+  | _ => match decode x with Some c => Some [c] | None => None end
+  end.
 
-Definition run_line : string -> string := run_with decode verdict.
+(* (mismatch, spec_fail_new, spec_fail_known, nontrivial) of one case, each predicate evaluated once *)
+Definition judge (c : case) : bool * bool * bool * bool :=
+  let sf := spec_fail c in
+  let kn := if sf then known c else false in
+  (mismatch c, sf && negb kn, sf && kn, nontrivial c).
+
+Lemma judge_spec c : judge c = (mismatch c, spec_fail_new c, spec_fail_known c, nontrivial c).
+Proof. unfold judge, spec_fail_new, spec_fail_known. destruct (spec_fail c); reflexivity. Qed.
+
+Definition verdict (l : list case) : N :=
+  let js := map judge l in
+  verdict_bits (existsb (fun j => fst (fst (fst j))) js) (existsb (fun j => snd (fst (fst j))) js)
+               (existsb (fun j => snd (fst j)) js) (existsb snd js).
+
+Definition run_line : string -> string := run_with decode_line verdict.
 
 (* what the model computes for a render case (used by --replay to show the model side) *)
 Definition model_show (c : case) : list (option string) :=
   match c with
-  | CRender prefix vars files _ _ _ _ _ _ _ _ _ =>
+  | CRender _ prefix vars files _ _ _ =>
       let po := path_of prefix in
       [Some (to_hex (shell_script params false false po vars files));
        Some (to_hex (shell_script params true true po vars files));
